@@ -8,6 +8,7 @@ accountants, any interleaving of set_default / pop_default / load_default / call
 -/
 import DPL.Model.Scope
 import DPL.Proofs.Scope
+import DPL.Proofs.ScopeIR
 
 namespace DPL.C16
 open DPL
@@ -303,5 +304,64 @@ example : (runI demo St.init).2 = (runS demo Sp.init).2 := (scope_refines_stack_
 
 example : (runI (.block (.named 0) (.op (.setDefault (.named 1)) .raise) .nil) ⟨some (.named 5), fun _ => none, 0⟩).1.default
     = some (.named 5) := by decide
+
+
+/-! ## Static tie: the five scoping methods as coded (IR of `DPL/Model/ScopeIR.lean`)
+
+`DPL/Generated/C16Scope.lean` re-derives the bodies of `__enter__`, `__exit__`, `set_default`, `pop_default` and
+`load_default` from the current source on every run and proves the five contracts below for them; the theorems here
+say what the contracts buy and that they discriminate. -/
+
+open ScopeIR in
+/-- the bodies at the revision the model was written against meet their contracts: the interpreter run on them IS the
+machine (`enterI`, `exitI`, `stepI`) of `scope_refines_stack` -/
+theorem scoping_methods_as_coded :
+    PopOk handPop ∧ SetOk handSet ∧ EnterOk handEnter ∧ ExitOk handExit ∧ LoadOk handLoad :=
+  ⟨handPop_ok, handSet_ok, handEnter_ok, handExit_ok, handLoad_ok⟩
+
+open ScopeIR in
+/-- whatever bodies meet the `__enter__`/`__exit__` contracts, a `with a:` statement executed through them (enter, any
+state transformer `f` for the block's body, exit) ends in exactly the state `runI` computes for a block, and raises
+AttributeError exactly when `runI` says so -/
+theorem with_block_via_ir (en ex : Stmt) (hen : EnterOk en) (hex : ExitOk ex) (f : St → St) (σ : St) (a : AccId) :
+    (run ex (some a) none (f (run en (some a) none σ).1)).1 = (exitI (f (enterI σ a)) a).1 ∧
+    ((run ex (some a) none (f (run en (some a) none σ).1)).2 = .raised .attributeError ↔
+      (exitI (f (enterI σ a)) a).2 = true) := by
+  rw [hen σ a, hex]
+  refine ⟨rfl, ?_⟩
+  cases (exitI (f (enterI σ a)) a).2 <;> simp
+
+open ScopeIR in
+/-- an `__exit__` that meets its contract never returns a truthy value: the body's exception keeps propagating -/
+theorem exit_never_swallows (ex : Stmt) (hex : ExitOk ex) (σ : St) (a v : AccId) :
+    (run ex (some a) none σ).2 ≠ .returned (some v) := by
+  rw [hex]
+  cases (exitI σ a).2 <;> simp
+
+open ScopeIR in
+/-- the contracts discriminate (1): `__exit__` without `del self.old_default` is not `exitI` -/
+theorem exit_without_del_cex :
+    ¬ ExitOk (.seq (.eval .callPop) (.ifNotNone .selfOld (.eval (.callSet .selfOld)))) := by
+  intro h
+  have := congrArg (fun r => r.1.old (.named 0))
+    (h ⟨none, fun _ => some (some (.named 1)), 0⟩ (.named 0))
+  simp [run, exec, evalE, exitI, upd] at this
+
+open ScopeIR in
+/-- the contracts discriminate (2): `__enter__` that installs itself BEFORE saving the old default saves itself -/
+theorem enter_swapped_cex :
+    ¬ EnterOk (.seq (.eval (.callSet .self)) (.seq (.setOld .callPop) (.ret .self))) := by
+  intro h
+  have := congrArg (fun r => r.1.default) (h ⟨some (.named 1), fun _ => none, 0⟩ (.named 0))
+  simp [run, exec, evalE, enterI] at this
+
+open ScopeIR in
+/-- the contracts discriminate (3): a `load_default` that does not STORE the lazily created default returns a new
+accountant on every call (the default would never be shared between calls) -/
+theorem load_without_store_cex :
+    ¬ LoadOk (.seq (.ifIsNone .arg (.seq (.ifIsNone .clsDefault (.ret .newAcc)) (.ret .clsDefault))) (.ret .arg)) := by
+  intro h
+  have := congrArg (fun r => r.1.default) (h ⟨none, fun _ => none, 0⟩ none)
+  simp [run, exec, evalE, stepI, resolveTop] at this
 
 end DPL.C16
